@@ -824,6 +824,23 @@ static void stage_dec(void) {
   }
   vb_free(&x);
 }
+static void stage_bigleaf(void) {
+  uint64_t nb = gen_bigleaf_count();
+  struct vh_buf x = {0};
+  for (uint64_t u = 0; u < nb; u++) {
+    if ((int)(u % (uint64_t)O.nshards) != O.shard) continue;
+    rnode* t = gen_bigleaf(u);
+    if (!t) continue;
+    /* C11's independence check sorts and cross-checks every block of both trees: kept to trees of at most 20 000 nodes */
+    if (P == 11 && rn_count(t) > 20002) { rn_free(t); VH_COUNT("bigleaf.skipped_too_many_nodes_for_the_disjointness_check", 1); continue; }
+    vb_reset(&x);
+    ref_encode_src(t, &x);
+    rn_free(t);
+    dec_case(x.p, x.n);
+    VH_COUNT("bigleaf.items", 1);
+  }
+  vb_free(&x);
+}
 static void stage_api(void) {
   uint64_t nsys = gen_systematic_count();
   uint64_t nrand = O.budget ? O.budget : (O.thorough ? 200000 : 20000);
@@ -967,6 +984,7 @@ static void ser_run(void) {
   setup();
   if (!strcmp(O.stage, "dec")) stage_dec();
   else if (!strcmp(O.stage, "api")) stage_api();
+  else if (!strcmp(O.stage, "bigleaf")) stage_bigleaf();
   else if (!strcmp(O.stage, "enc") && P == 7) c07_encoders();
   else if (!strcmp(O.stage, "giant") && P == 7) stage_giant();
   else vh_die("driver ser: unknown stage '%s'", O.stage);
